@@ -150,11 +150,11 @@ theorem inv_step {b0 e0 : Nat} {s s' : S} {i : Nat} (h : Inv b0 e0 s) (hs : step
       · cases hs
     · rename_i r hp hst
       simp only at hp hst; subst hp; subst hst
-      have a0 := e1 ⟨.end_ :: r, .claimed⟩
-      simp only [infl_claimed] at a0
+      have a0 := e1 ⟨[], .idle⟩
+      simp only [infl_claimed, infl_idle] at a0
       split at hs
       · -- the clamp: impossible, this very thread is in flight
-        rename_i hz; omega
+        rename_i hz; exfalso; omega
       · simp only [Option.some.injEq] at hs; subst hs
         have a1 := e1 ⟨.end_ :: r, .loaded s.counter⟩; have a2 := e2 ⟨.end_ :: r, .loaded s.counter⟩
         have a3 := e3 ⟨.end_ :: r, .loaded s.counter⟩
